@@ -283,6 +283,31 @@ def run_binding(gen: Generated, binding: str, nargs: int, kw) -> Tuple[str, Any,
   raise ValueError(binding)
 
 
+def run_copies(gen: Generated, binding: str, nargs: int, kw) -> Dict[str, Tuple[str, Any]]:
+  """Clone and JSON round trip of an object bound in one go: way of copying -> (kind, result-shaped value).
+
+  functor / symbolize: the copy is called; object: its sym_init_args; wrap: what the user __init__ of the copy got."""
+  pos, kws = call_args(nargs, kw, 300, 400)
+  if binding in ('functor', 'symbolize'):
+    cls = gen.functor if binding == 'functor' else gen.symbolized
+    use = lambda o: o()
+  elif binding == 'object':
+    cls = gen.object_cls
+    use = lambda o: sym_args_of(o, gen.sig)
+  elif binding == 'wrap':
+    cls = gen.wrapper
+    use = lambda o: o.bound
+  else:
+    return {}
+  kind, obj = outcome(lambda: cls(*pos, **kws))
+  if kind != 'ok':
+    return {}
+  return {
+      'clone': outcome(lambda: use(obj.clone(deep=True))),
+      'json': outcome(lambda: use(pg.from_json(pg.to_json(obj)))),
+  }
+
+
 # ---------------------------------------------------------------------------------------------------------------
 # life-cycle mode: replay of one simulated behaviour of Callable.tla
 
